@@ -342,6 +342,21 @@ def build():
     add("persistent/kdtree_same_array/k1", "kd", dict, lambda a: triplets(prs.kdtree(_PERSIST["arr"], max_edits=1, n_cpu=2)), slow=True)
     add("persistent/kdtree_same_array/k2", "kd", dict, lambda a: triplets(prs.kdtree(_PERSIST["arr"], max_edits=2, n_cpu=2)), slow=True)
     add("persistent/kdtree_same_array/k2_one_return", "kd", dict, lambda a: len(prs.kdtree(_PERSIST["arr"], max_edits=2, max_returns=1, n_cpu=2)), slow=True)
+    # ---- long-lived database objects (a reference repertoire indexed once, queried all day): the distance mode, the custom
+    #      distance and both radii are arguments of EACH lookup; an answer never depends on what the object was asked before.
+    #      Entries run in this order at the end of every session: Hamming, Levenshtein, Hamming again; radius 2 before radius 1.
+    _PERSIST.setdefault("ldb", nn.LookupDB(list(SEQS)))
+    _PERSIST.setdefault("sdb", nn.SymdelDB(list(SEQS), 2))
+    _cdq = lambda x, y: 0.5 * abs(len(x) - len(y)) + 0.25 * sum(a != b for a, b in zip(x, y))
+    QDB = ["CASSLGQAYEQYF", "CAWSVGNTIYF", "CASSF", "CASSLGQAYEQYF"]
+    for _nm, _db in (("LookupDB", "ldb"), ("SymdelDB", "sdb")):
+        _k = (lambda k, _nm=_nm: dict(max_edits=k) if _nm == "LookupDB" else {})
+        add(f"persistent/{_nm}/hamming", "pure", lambda: dict(q=list(QDB)), lambda a, _db=_db, _k=_k: triplets(_PERSIST[_db].lookup(a["q"], custom_distance="hamming", **_k(1))))
+        add(f"persistent/{_nm}/levenshtein", "pure", lambda: dict(q=list(QDB)), lambda a, _db=_db, _k=_k: triplets(_PERSIST[_db].lookup(a["q"], **_k(1))))
+        add(f"persistent/{_nm}/hamming_again", "pure", lambda: dict(q=list(QDB)), lambda a, _db=_db, _k=_k: triplets(_PERSIST[_db].lookup(a["q"], custom_distance="hamming", **_k(1))))
+        add(f"persistent/{_nm}/custom_wide", "pure", lambda: dict(q=list(QDB)), lambda a, _db=_db, _k=_k: triplets(_PERSIST[_db].lookup(a["q"], custom_distance=_cdq, **_k(2))))
+        add(f"persistent/{_nm}/custom_narrow", "pure", lambda: dict(q=list(QDB)), lambda a, _db=_db, _k=_k: triplets(_PERSIST[_db].lookup(a["q"], custom_distance=_cdq, max_custom_distance=0.5, **_k(1))))
+        add(f"persistent/{_nm}/levenshtein_dense", "pure", lambda: dict(q=list(QDB)), lambda a, _db=_db, _k=_k: _PERSIST[_db].lookup(a["q"], output_type="ndarray", **_k(1)))
     add("pcDelta/table_default_metric", "pure", lambda: dict(df=_df()), lambda a: prs.pcDelta(a["df"], bins=[0, 1, 2, 5, 30]))
     # ---- sentinels: values that exist only under the default IEEE / NumPy error handling (inf, nan); a call that leaves the
     #      process-wide floating-point error state or similar settings changed shows here
